@@ -87,6 +87,9 @@ func (in *Interp) intercept(fn *ssa.Function, args []Value, caller *frame) (Valu
 		return nil, false
 	}
 	if !in.W.interpretable(pp, full) {
+		if v, ok := in.genericCall(full, args); ok {
+			return v, true
+		}
 		in.unsupported("call to %s (no model)", full)
 	}
 	return nil, false
